@@ -76,7 +76,8 @@ func l1CaseText(c *L1Case, t *termTable) string {
 var termRe = regexp.MustCompile(`\bv[0-9]+_`)
 
 // writeShardsTerms is writeShards plus the definitions of the interned terms each file uses.
-func writeShardsTerms(dir, prop string, header string, runFn string, caseType string, cases []string, n int, rep *Report, t *termTable) {
+// Files are numbered from `first`; the number of files written is returned.
+func writeShardsTerms(dir, prop string, header string, runFn string, caseType string, cases []string, n int, rep *Report, t *termTable, first int) int {
 	if n > len(cases) {
 		n = len(cases)
 	}
@@ -114,7 +115,7 @@ func writeShardsTerms(dir, prop string, header string, runFn string, caseType st
 				fmt.Fprintf(&defs, "Definition v%d_ : %s := %s.\n", i, t.types[i], txt)
 			}
 		}
-		name := fmt.Sprintf("cases_%s_%03d.v", prop, k)
+		name := fmt.Sprintf("cases_%s_%03d.v", prop, first+k)
 		f, err := os.Create(filepath.Join(dir, name))
 		if err != nil {
 			panic(err)
@@ -133,4 +134,5 @@ func writeShardsTerms(dir, prop string, header string, runFn string, caseType st
 		f.Close()
 		rep.Shards = append(rep.Shards, name)
 	}
+	return n
 }
